@@ -134,12 +134,14 @@ CLAIMS = {
    technique="Lean 4 proof (codec read-back + C16 window theorem, abelian-group algebra) + verdict-grid oracle + differential correspondence of builder bytes and runs",
    design="§5 C15"),
  'C04': dict(
-   text="Proved on the VM model for every root, script, sibling, stack, cache, limits and hash function with 32-byte digests: OP_MERKLEVAL on a (script, sibling) pair that does not hash to the root ends in ScriptExecutionError before its EVAL step - "
-        "the final state differs from the initial one only in the stack, so no instruction of the supplied script ran (merkleval_rejects); on a pair that does hash to the root it behaves exactly as OP_EVAL of that script on the remaining stack, whatever that outcome is (merkleval_accepts). "
+   text="Proved on the VM model (big-step symbolic execution, for every tree, path, stack, cache, limits and hash function with 32-byte digests): "
+        "(binding) OP_MERKLEVAL on a (script, sibling) pair that does not hash to the root ends in ScriptExecutionError before its EVAL step - only the stack changes, so no instruction of the supplied script ran (merkleval_rejects); on a matching pair it is exactly OP_EVAL of that script (merkleval_accepts); "
+        "(completeness, every shape and leaf) every level of every tree verifies whichever side the subtree is on (level_ok_left/right); the bytes of a leaf's unlocking script push exactly its proof (unlock_run); and from that stack OP_MERKLEVAL <root> ends exactly as the leaf script does when started on the remaining stack with the same cache / plugin log / random counter, the only scripts run on the way being the path's level scripts (tree_run, by induction on the path); "
+        "(serialisation) unpack (pack t) = t for every tree whose packed children are shorter than 2^16 bytes (unpack_pack), hence same root and unlocking scripts. "
         "Tie and exactness on the implementation: all tree shapes to 8 leaves, prioritized / balanced builders to 24 leaves incl. filler leaves: root / lock / pack / unlocking scripts vs the model's Tree functions; each leaf's unlock + lock hands to run_tape exactly the path's level scripts and that leaf, writes only that leaf's marker and gives the leaf's own verdict; "
         "per-level corruptions (script bit, sibling bit, pair exchanged, levels exchanged, foreign leaf, foreign proof, uncommitted script): false, altered script never handed to run_tape, no marker; pack -> unpack keeps root and every unlocking script.",
-   note="the whole-tree completeness (every level of every tree verifies) and the pack / unpack round trip are decided by oracle + model correspondence in this commit; the theorems cover the instruction.",
-   technique="Lean 4 proof (big-step symbolic execution of OP_MERKLEVAL on the VM model, fuel-monotone interpreter) + started-scripts oracle on the implementation + differential correspondence of tree functions and runs",
+   note="tree_run / unlock_run assume the resource side conditions they state (item sizes within stack_max_item_size, stack room for the proof, call budget >= path length, OP_EVAL not disallowed, non-empty leaf script); the shapes the two builders produce are compared with the implementation, not derived in Lean; collision resistance of SHA-256 is not assumed or proved - binding is stated relative to the digest equation.",
+   technique="Lean 4 proof (big-step symbolic execution on the VM model over a fuel-monotone interpreter, induction over tree paths, pack/unpack inverse) + started-scripts oracle on the implementation + differential correspondence of tree functions and runs",
    design="§5 C04"),
  'C05': dict(
    text="Proved on the VM model by big-step symbolic execution of OP_TAPROOT for every root, key, script, stack, cache, limits and (arbitrary) hash / curve parameters: "
